@@ -106,7 +106,7 @@ func (p *networkSimplexProcessor) feasibleTree(g *graph.DGraph) {
 		if len(treeNodes) == len(g.Nodes) {
 			break
 		}
-		e := p.incidentNonTreeEdge(treeNodes)
+		e := p.incidentNonTreeEdge(g, treeNodes)
 		// incident means that one of e's vertices belongs to the tree and one doesn't.
 		// here e's slack must be >= 0: since it points to a non-tree node, if the slack
 		// were 0 it would've been included in the tight tree.
@@ -180,11 +180,14 @@ func tightTree(n *graph.Node, visitedEdges graph.EdgeSet, visitedNodes graph.Nod
 
 // This finds a "non-tree edge incident on the tree with min amount of slack".
 // Incident means that only one of the edge's vertices belongs to the spanning tree.
-func (p *networkSimplexProcessor) incidentNonTreeEdge(treeNodes graph.NodeSet) *graph.Edge {
+func (p *networkSimplexProcessor) incidentNonTreeEdge(g *graph.DGraph, treeNodes graph.NodeSet) *graph.Edge {
 	var minSlack = math.MaxInt
 	var candidate *graph.Edge
-	// todo: range on map non-deterministic
-	for n := range treeNodes {
+	// visit the tree nodes in graph order: ranging on the map would break ties between edges with the same slack randomly
+	for _, n := range g.Nodes {
+		if !treeNodes[n] {
+			continue
+		}
 		n.VisitEdges(func(e *graph.Edge) {
 			if e.SelfLoops() {
 				return
